@@ -200,6 +200,33 @@ theorem transparent_iff (key : A → K) (f : A → B) :
 /-- non-vacuity: a table keyed by Q² alone for a function of (Q², skewness) — the second call is wrong -/
 example : (run (fun p : Nat × Nat => p.1) (fun p => p.1 + p.2) [] [(4, 0), (4, 1)]).1 = [4, 4] := by decide
 
+/-- CPython's `hash` on small integers (and on floats with integer value): the identity, except that -1 is reserved
+    as the C error code and is mapped to -2 -/
+def pyHash (n : Int) : Int := if n = -1 then -2 else n
+
+/-- **a table keyed by `hash(x)` instead of `x` is not transparent**: whatever the function, if it tells -1 from -2
+    the history "ask at -1, then at -2" returns the first value twice.  (Seeded changes C12-9, C19-9: a memo in front of
+    the coefficient tables / the form factors keyed by `hash(t)`.) -/
+theorem hash_key_refuted (f : Int → B) (hf : f (-1) ≠ f (-2)) :
+    (run pyHash f [] [-1, -2]).1 = [f (-1), f (-1)] ∧ (run pyHash f [] [-1, -2]).1 ≠ [-1, -2].map f :=
+  incomplete_key_refuted pyHash f (-1) (-2) (by decide) hf
+
+/-- and keyed by the argument itself it is transparent for every history, whatever the function -/
+theorem value_key_transparent (f : A → B) [DecidableEq A] (hist : List A) :
+    (run (fun a => a) f [] hist).1 = hist.map f :=
+  (run_pure (fun a => a) f (fun _ _ h => by rw [h]) [] (by intro k b hm; cases hm) hist).1
+
+/-- **a table keyed by the identity (`id(obj)`) of an argument that may be freed**: two different arguments that
+    receive the same identity one after the other (a temporary dropped, the next one allocated at the same address) and
+    on which the function differs — the second call returns the first one's result.  (Seeded changes C17-9, C03-9:
+    memos keyed by `id()` of temporaries / of an array refilled in place.) -/
+theorem identity_key_refuted {Obj : Type} (addr : Obj → Nat) (f : Obj → B) (x y : Obj)
+    (hreuse : addr x = addr y) (hf : f x ≠ f y) :
+    (run addr f [] [x, y]).1 ≠ [x, y].map f :=
+  (incomplete_key_refuted addr f x y hreuse hf).2
+
+example : (run pyHash (fun t : Int => t * t) [] [-1, -2]).1 = [1, 1] := by decide
+
 end Gep.Memo
 
 /-! ### the cache of Model/Predict.lean is an instance of the general memo table -/
